@@ -167,7 +167,7 @@ def gen_case(rng):
     return {"kind": kind, "traits": traits, "variants": variants, "decl": decl, "where": wh, "dv": dv,
             "entry": rng.choice(["attr", "derive"]), "split": rng.random() < 0.15, "stdv": stdv, "cfg": cfg,
             # lints: `#[deprecated]` on fields / variants / the type; non-snake-case field names the item allows
-            "lint": rng.choice(["deprecated", "names"]) if rng.random() < 0.12 else None, "lint_on_type": rng.random() < 0.3}
+            "lint": rng.choice(["deprecated", "names", "underscore"]) if rng.random() < 0.15 else None, "lint_on_type": rng.random() < 0.3}
 
 
 def render(s, with_dx=True, resolved=False):
@@ -189,7 +189,7 @@ def render(s, with_dx=True, resolved=False):
                 a = ("#[cfg(any())] " if f["cfg"] == "false" else "#[cfg(all())] ") + a
             if lint == "deprecated" and i == 0:
                 a = "#[deprecated] " + a
-            fn_ = f"Fld{i}" if lint == "names" else f"f{i}"
+            fn_ = f"Fld{i}" if lint == "names" else (f"_f{i}" if lint == "underscore" else f"f{i}")
             fs.append(f"{a}{fn_}: {f['ty'][0]}" if v["style"] == "named" else f"{a}{f['ty'][0]}")
         bodies.append("{ " + ", ".join(fs) + " }" if v["style"] == "named" else ("(" + ", ".join(fs) + ")" if v["style"] == "tuple" else ""))
     if s["kind"] == "struct":
@@ -379,6 +379,33 @@ def run(rep, tier, rng):
                           f"[{len(lst)} programs; features {sorted({x[2] for x in lst})[:6]}]:\n{c.code[:700]}", {"code": c.code})
         else:
             rep.inconcl("did not reproduce in isolation: " + sig)
+    # ---- programs in which types, expressions and attributes reach the macro as macro_rules! fragments, under deny(warnings):
+    # nothing the macro adds around a fragment (parentheses ..) may draw a lint or break the item
+    FR = ("#[derive(Clone, Debug, PartialEq)] pub struct A(pub i32);\n"
+          "macro_rules! mk { ($this:ty, $rhs:ty, $e:expr, $n:expr, $(#[$m:meta])*) => {\n"
+          "  @OP impl ::core::ops::Sub<$rhs> for $this { type Output = A; fn sub(self, r: $rhs) -> A { A(self.0 - r.0 + $e - $e + ($n.abs() + $n) as i32) } }\n"
+          "  $(#[$m])* @TY pub struct D { $(#[$m])* @DF pub a: u8, pub b: [u8; 2 * $e], pub c: ::core::marker::PhantomData<fn($this)> }\n"
+          "  $(#[$m])* @EN #[repr(i8)] pub enum E { $(#[$m])* A = $e, B = $n, C = 2 * $e }\n"
+          "} }\nmk!(&A, &A, 1 + 2, -1i8, #[doc = \"forwarded\"] #[cfg(all())]);")
+    frag = []
+    for k, (op, ty, df, en) in enumerate((("#[::derive_ex::derive_ex(Sub)]", "#[::derive_ex::derive_ex(Clone, Default, PartialEq, Debug)]", "#[default($e)]", "#[::derive_ex::derive_ex(Clone, PartialEq, PartialOrd)]"),
+                                         ("#[::derive_ex::derive_ex(Sub, SubAssign)]", "#[derive(::derive_ex::Ex)] #[derive_ex(Clone, Default)]", "#[default($e * 2)]", "#[derive(::derive_ex::Ex)] #[derive_ex(Clone, Debug)]"))):
+        frag.append(C.Case(f"fr{k}", FR.replace("@OP", op).replace("@TY", ty).replace("@DF", df).replace("@EN", en), {}))
+    frag_ctl = C.Case("frk", FR.replace("@OP", "").replace("@TY", "").replace("@DF", "").replace("@EN", ""), {})
+    _, fnotes = C.run_cases(frag + [frag_ctl], "c20f", header=HEADER, batch_size=1, runnable=False)
+    for nmsg in fnotes:
+        rep.inconcl(nmsg)
+    for c in frag:
+        if c.status == "inconclusive" or frag_ctl.status != "ok":
+            rep.inconcl("fragment program: " + ("control does not compile: " + str([d["message"] for d in frag_ctl.diags][:2]) if frag_ctl.status != "ok" else "inconclusive"))
+            continue
+        rep.evaluations += 1
+        rep.count("programs_fragments")
+        bad = [d for d in c.diags if d["level"] == "error" and not lint_allowed(d, allowed)]
+        if c.status == "compile_fail" and bad and not own_errors(c):
+            d = bad[0]
+            rep.violation(f"C20|fragment-program|{d['code']}", f"rustc reports `{d['code']}: {(d['message'] or '')[:160]}` for a program whose types / expressions / attributes are macro_rules! "
+                          f"fragments (the same program without derive_ex compiles under the same header):\n{c.code[:700]}", {"code": c.code})
     g0 = next(c for c in cases if c.meta.get("src") == "grammar" and c.status == "ok" and c.meta["spec"]["variants"])
     rep.sample({"source": g0.code, "status": g0.status})
     g1 = next((c for c in cases if c.meta.get("src") == "grammar" and c.status == "ok" and "by" in features(c.meta["spec"])), g0)
